@@ -27,6 +27,8 @@ SYNC = ("suite_sync", {"n": {"quick": 200, "thorough": 4000}})
 
 PROGRAMS = ("suite_programs", {"n": {"quick": 400, "thorough": 8000}})
 
+CODEC = ("suite_codec", {"n": {"quick": 240, "thorough": 5000}})
+
 NOT_CLAIMED = {}
 
 CORE_NOTE = ("Trusted: Lean kernel; the hand-written generic oracle model (Ktm/Core.lean: create/update/endT over an arbitrary "
@@ -200,4 +202,13 @@ PROPS = {
                           "monitor checks completeness and parent-first order on the implementation. Values are integer codes assigned by the harness "
                           "(type-aware); Choice retypes bool choices to ints, so bool choices are not generated (recorded in DESIGN.md).",
             "assumptions": ["build functions are the generated program family (declarations, name scopes, conditional scopes, reads)"]},
+    "C15": {"suites": [CODEC],
+            "level_text": "Theorems (Ktm/Props/C15.lean): fromJ (toJ x) = x for conditions, the five hyperparameter kinds with every configured field, "
+                          "the container (order and values), observations, histories and trials, for ALL values of those types; a copy is an equal "
+                          "value; oracle state restored by reload (C07). The model is tied to the code by parsing every JSON tree the implementation "
+                          "writes with the model's reader, writing it back with the model's writer and comparing the canonical text.",
+            "level_note": "The JSON text level (json.dumps / json.loads) is Python's; float values are opaque tokens in the model (exact ratio / nan / inf); "
+                          "'equal in every observable respect' for implementation objects (defaults, value lists, transforms, activity, best values) is "
+                          "evaluated by the suite's monitors on reloaded objects, not proved; from_config mutates the dict it is given (harmless, noted).",
+            "assumptions": ["json module; dict ordering"]},
 }
